@@ -61,6 +61,7 @@ type FuncVer struct {
 	heapSorts  map[string]*Sort
 	ghostLocals map[string]*ghostLocal
 	pointees    map[string]pointee
+	trustedCalls map[string]bool // callees whose preconditions are assumed, not proved, at this function's call sites
 	ifaceTypes  map[string]types.Type // mkiface_<T> function symbol -> T
 	ghostAxioms []*Term // well-formedness of initial ghost values; added to every query that mentions them
 	entryVars  map[string]SVal
@@ -94,8 +95,15 @@ func (fv *FuncVer) addQuery(st *State, kind, anchor string, pos token.Pos, goal 
 		return
 	}
 	goal = fv.skolemize(goal)
-	q := &Query{Assumptions: append([]*Term(nil), st.pc...), Goal: goal, Trace: append([]string(nil), st.trace...)}
-	ob.Queries = append(ob.Queries, q)
+	// one query per top-level conjunct: smaller goals for the solvers
+	parts := []*Term{goal}
+	if goal.Op == "and" && len(goal.Args) <= 24 {
+		parts = goal.Args
+	}
+	for _, g := range parts {
+		q := &Query{Assumptions: append([]*Term(nil), st.pc...), Goal: g, Trace: append([]string(nil), st.trace...)}
+		ob.Queries = append(ob.Queries, q)
+	}
 }
 
 func relPath(p string) string {
